@@ -62,7 +62,7 @@ def run(prog, rep):
     dispatch_exhaustive(prog, rep)
     jobs = [("stockdriven", dict(c, both_generic=True)) for c in SC.dsm_configs(rep.tier) if c["n_pts"] == 1 and c["n_t"] <= 4]
     jobs += [("stockdriven", c) for c in SC.dsm_configs(rep.tier) if c["n_pts"] == 2 and c["n_t"] == 3 and not c["labels"]]
-    jobs += [("stockdriven", c) for c in SC.int_driver_configs(rep.tier)]
+    jobs += [("stockdriven", c) for c in SC.int_driver_configs(rep.tier) + SC.layout_configs(rep.tier)]
     jobs += [("zero", c) for c in SC.dsm_configs(rep.tier) if c["n_pts"] == 1 and c["n_t"] == 3 and len(c["labels"]) <= 1 and c["over"] in ("number", "all")]
     run_stock_property(prog, rep, "C10", jobs, {"inverse": "C10.inverse", "converse": "C10.converse", "solvers-agree": "C10.solvers-agree"})
     rep.rules["C10.inverse"]["floor"] = 40
